@@ -4,7 +4,11 @@ Engine E1 (tasks) with fault injection at the observer seam: a real LogPublisher
 with up to 6 recording observers.  The tape decides, per delivery, whether an
 observer raises and whether it re-entrantly emits another event (from inside the
 delivery of an ordinary event or of a failure report); between emissions observers
-are added / removed.  Up to three real FilteringLogObserver(LogLevelFilterPredicate)
+are added / removed, and in some runs also from inside a delivery.  Each observer is
+named to the publisher either as the callable object itself or as a bound method of
+it that is evaluated anew for every addObserver / removeObserver (an equal, not
+identical, object: registering it again must change nothing, removing it must take
+the registered one out).  Up to three real FilteringLogObserver(LogLevelFilterPredicate)
 pairs are alive at once (built at the start or in mid-run), each fed by one observer,
 each with its own default and namespace levels which the tape reconfigures and
 queries interleaved; one observer forwards to a real LimitedHistoryLogObserver that
@@ -12,7 +16,8 @@ is replayed.
 Oracles: (1) per event (original, re-entrant, or failure report) the list of
 observers that received it equals the expected list, exactly once each, in
 registration order; a failure report goes to every observer of the failed
-delivery except the one that raised; (2) per filter, decision == longest configured
+delivery except the one that raised; an observer added or removed while a dispatch
+is under way gets no verdict for the events in flight, every other observer does; (2) per filter, decision == longest configured
 dotted prefix rule computed independently from that filter's own configuration; (3) replay == last N events given
 to the history observer.
 """
@@ -33,18 +38,36 @@ COMPONENTS = {"real": ["twisted.logger.LogPublisher", "twisted.logger.Logger.emi
                        "twisted.logger.FilteringLogObserver", "twisted.logger.LimitedHistoryLogObserver"],
               "stub": ["observers (recording; raise / re-emit on tape's decision)"]}
 RULE = ("run = 5..40 operations on one LogPublisher with <=6 observers: emit (raw dict or through Logger, namespace of 1-4 dotted segments from "
-        "{a,b,ab,c}, any level), add/re-add/remove observer between emissions, "
+        "{a,b,ab,c}, any level), add/re-add/remove observer between emissions (per observer the run fixes how it is named to the publisher: "
+        "the callable object, or a bound method evaluated anew for every call - equal to but not the same object as the one registered), "
+        "in a quarter of the runs also from inside a delivery (15% of the deliveries: register an absent observer, or remove one that the running "
+        "dispatches have not reached yet; with UNSAFE_REMOVE_P > 0 also the handling observer itself or an earlier one), "
         "set / clear namespace levels of one of the 1..3 live level filters (each with its own default; further filters are built in mid-run, after "
         "the earlier ones were configured), query a filter's predicate, replay the history; "
         "per delivery the tape decides raise (observers are never / sometimes / always raising) and re-entrant emit (depth<=2), the latter both "
         "while an ordinary event and while the failure report of another observer is being delivered (there with half the probability; <=4 nested emits per top-level emission); "
         "non-trivial = at least one observer raised while >=2 observers were registered and at least one namespace level was configured")
-ASSUMPTIONS = ["observers are added/removed only between dispatches (statement does not cover mutation mid-dispatch)",
+ASSUMPTIONS = ["an observer added or removed while a dispatch is under way gets no verdict for the events in flight at that moment (the statement "
+               "does not say whether it is still / already one of the publisher's observers for them), nor for the failure reports that stem from "
+               "them; every other observer stays 'one of its observers' throughout and is judged as usual",
+               "an observer is the thing the application registered: naming it again by an equal callable (a bound method obtained a second "
+               "time) is registering the same observer again, and removing by an equal callable removes it - that is how addObserver / "
+               "removeObserver are used with methods, and the only way a method can be removed at all",
+               "removals from inside a delivery take out only observers behind the cursors of the running dispatches unless drawn with UNSAFE_REMOVE_P (0.5 of "
+               "such removals; precondition of the genuine defect listed in MUTANTS, REPAIRED in /repo 5128ccf; 0 only for dev-time comparison)",
                "an ordinary event logged into the publisher from inside an observer is an event like any other, whatever the observer was handed "
                "(event or failure report): every registered observer, the one whose failure is being reported included, receives it once",
                "level filters are independent objects: what is configured on one says nothing about another (each judged against its own model)",
                "events carry a non-empty namespace and a level (the predicate documents dropping events without them; the statement is silent)",
                "a failure report is recognised by carrying the raised exception in log_failure"]
+
+# Knob (module-level constant, precondition of a genuine defect of the tree as first examined, REPAIRED in /repo 5128ccf - see MUTANTS
+# "GENUINE DEFECT"; the knob lets it into half of such removals, 0 is only for dev-time comparison): share of the
+# removals issued from INSIDE a delivery that may take out an observer standing at or before the running delivery in registration
+# order (the handling observer itself included).  0.0 = such removals are never generated: only observers that the running
+# dispatches have not reached yet are removed from inside a delivery.  Verdicts of emissions in which such a removal fired carry
+# the witness suffix '@removed-at-or-before-cursor'.
+UNSAFE_REMOVE_P = 0.5
 
 RANK = {"debug": 0, "info": 1, "warn": 2, "error": 3, "critical": 4}
 LEVELS = [LogLevel.debug, LogLevel.info, LogLevel.warn, LogLevel.error, LogLevel.critical]
@@ -84,9 +107,15 @@ def run(sim):
     hist_at = sim.draw_int(0, nobs - 1, "history_at")
     report_reemit = sim.draw_choice([True, False], "report_reemit")   # observers may log while handling a failure report
     nfilt_init = sim.draw_choice([1, 2, 1, 3], "nfilters_init")
+    # how the application names an observer to the publisher: the callable object itself, or a bound method of it that is
+    # evaluated anew for every addObserver / removeObserver (equal to, but not the same object as, the one registered before)
+    shapes = [sim.draw_choice(["object", "method", "object"], "shape") for _ in range(nobs)]
+    # observers that add / remove observers of the publisher from inside a delivery (share per delivery)
+    mutate_p = sim.draw_choice([0.0, 0.0, 0.15, 0.0], "mid_dispatch_p")
     sim.config = {"observers": nobs, "ops": nops, "history": hist_n, "default": default_level,
                   "raise_p": [c[0] for c in obs_cfg], "reemit_p": [c[1] for c in obs_cfg], "filter_at": filt_at, "history_at": hist_at,
-                  "report_reemit": report_reemit, "filters_init": nfilt_init}
+                  "report_reemit": report_reemit, "filters_init": nfilt_init,
+                  "shapes": shapes, "mid_dispatch_p": mutate_p}
 
     class Filt:
         """One live level filter: real predicate + FilteringLogObserver, and the model of its own configuration."""
@@ -120,11 +149,14 @@ def run(sim):
     history = LimitedHistoryLogObserver(hist_n)
     hist_model = []                # events handed to the history observer, in order
 
-    st = {"eid": 0, "serial": 0, "depth": 0, "raised_multi": 0, "emits": 0, "configured": 0, "nested": 0}
+    st = {"eid": 0, "serial": 0, "depth": 0, "raised_multi": 0, "emits": 0, "configured": 0, "nested": 0, "unsafe": False}
     expect = {}                    # key -> [observer index] that must receive it, in order
     got = {}                       # key -> [observer index] that did, in order
     raised_by = {}                 # serial -> observer index
     created = []                   # keys created during the current top-level emission
+    open_keys = []                 # keys whose dispatch has not finished yet (a key closes, with everything created inside, when its emit returns)
+    unjudged = {}                  # key -> observer indexes added / removed while the key was open: no verdict about them for this key
+    inflight = []                  # (kind, observer index) of the deliveries that are running now, outermost first
 
     def key_of(event):
         if "eid" in event:
@@ -147,7 +179,16 @@ def run(sim):
         key = ("e", eid)
         expect[key] = list(reg)
         got[key] = []
+        unjudged[key] = set()
         created.append(key)
+        mark = len(open_keys)
+        open_keys.append(key)
+        try:
+            _publish(eid, ns, level, reentrant_from)
+        finally:
+            del open_keys[mark:]
+
+    def _publish(eid, ns, level, reentrant_from):
         raw = sim.draw_bool(0.5, "raw")
         sim.event("emit", eid, ns, level.name, "raw" if raw else "logger", "from%s" % reentrant_from if reentrant_from is not None else "")
         with sim.guard("publish-raised", "reentrant" if reentrant_from is not None else "top"):
@@ -165,18 +206,30 @@ def run(sim):
             self.raise_p, self.reemit_p = obs_cfg[idx]
 
         def __call__(self, event):
+            return self.observe(event)
+
+        def observe(self, event):
             idx = self.idx
             key = key_of(event)
             if key is None or sim.violation is not None:
                 return            # noise after a violation (e.g. the report of the Violation exception itself)
+            inflight.append((key[0], idx))
+            try:
+                self._handle(event, key)
+            finally:
+                inflight.pop()
+
+        def _handle(self, event, key):
+            idx = self.idx
             sim.event("deliver", idx, key[0], key[1])
             sim.check("known-event", key in expect, key[0], "observer %d received %r which nobody emitted" % (idx, key))
-            if key[0] == "report":
+            if key[0] == "report" and idx not in unjudged[key]:
                 sim.check("report-not-to-raiser", raised_by.get(key[1]) != idx, "report",
                           "observer %d received the report of its own failure #%d" % (idx, key[1]))
-            sim.check("delivered-to-registered", idx in expect[key], key[0],
-                      lambda: "observer %d received %r but expected receivers are %r" % (idx, key, expect[key]))
-            sim.check("delivered-once", idx not in got[key], key[0], "observer %d received %r twice" % (idx, key))
+            if idx not in unjudged[key]:
+                sim.check("delivered-to-registered", idx in expect[key], wit(key),
+                          lambda: "observer %d received %r but expected receivers are %r" % (idx, key, expect[key]))
+                sim.check("delivered-once", idx not in got[key], wit(key), "observer %d received %r twice" % (idx, key))
             got[key].append(idx)
             # sinks
             if key[0] == "e":
@@ -197,6 +250,9 @@ def run(sim):
             if idx == hist_at:
                 hist_model.append(event)
                 history(event)
+            # fault: the observer set of the publisher changes while this delivery runs
+            if mutate_p and sim.draw_bool(mutate_p, "mutate"):
+                mutate_inside(idx)
             # faults: re-entrant emission, raising
             # (an observer may log an ordinary event whatever it is handling: an event or the report of another observer's failure)
             if ((key[0] == "e" or report_reemit) and self.reemit_p and st["depth"] < 2 and st["nested"] < 4
@@ -215,7 +271,9 @@ def run(sim):
                 rkey = ("report", x)
                 expect[rkey] = [i for i in expect[key] if i != idx]
                 got[rkey] = []
+                unjudged[rkey] = set(unjudged[key])    # the report goes out after the loop: to the observer set as changed meanwhile
                 created.append(rkey)
+                open_keys.append(rkey)
                 sim.fault("observer_raised")
                 if len(expect[key]) >= 2:
                     st["raised_multi"] += 1
@@ -223,14 +281,66 @@ def run(sim):
                 raise Boom(x)
 
     observers = [Obs(i) for i in range(nobs)]
+
+    def handle(i):
+        """What the application passes to the publisher to name observer i (a bound method is a new, equal object each time)."""
+        return observers[i].observe if shapes[i] == "method" else observers[i]
+
     ninit = sim.draw_int(0, nobs, "ninit")
     reg = list(range(ninit))       # model: registered observer indexes in registration order
-    pub = LogPublisher(*observers[:ninit])
+    pub = LogPublisher(*[handle(i) for i in range(ninit)])
+
+    def wit(key):
+        return key[0] + ("@removed-at-or-before-cursor" if st["unsafe"] else "")
+
+    def mutate_inside(idx):
+        """From inside a delivery to observer idx: register one more observer, or remove a registered one.  The observer added or
+        removed gets no verdict for the events whose dispatch is under way; every other observer does."""
+        absent = [j for j in range(nobs) if j not in reg]
+        if absent and (not reg or sim.draw_bool(0.5, "mutate_add")):
+            j = sim.draw_choice(absent, "which")
+            sim.event("add-inside", idx, j)
+            sim.fault("add_inside_delivery")
+            for k in open_keys:
+                unjudged[k].add(j)
+            reg.append(j)
+            with sim.guard("add-raised", "inside"):
+                pub.addObserver(handle(j))
+            return
+        # the dispatches of ordinary events walk the publisher's own observers; their cursors stand at the handling observers
+        cursors = [i for kind, i in inflight if kind == "e"]
+        if all(i in reg for i in cursors):
+            edge = max([reg.index(i) for i in cursors] + [-1])
+            ahead = reg[edge + 1:]
+        else:
+            ahead = []
+        unsafe = bool(UNSAFE_REMOVE_P) and sim.draw_bool(UNSAFE_REMOVE_P, "unsafe_remove")
+        cands = list(reg) if unsafe else ahead
+        if not cands:
+            return
+        j = sim.draw_choice(cands, "which")
+        if j not in ahead:
+            st["unsafe"] = True
+            sim.fault("remove_inside_delivery_at_or_before_cursor")
+        else:
+            sim.fault("remove_inside_delivery_ahead")
+        sim.event("remove-inside", idx, j)
+        for k in open_keys:
+            unjudged[k].add(j)
+        reg.remove(j)
+        with sim.guard("remove-raised", "inside"):
+            pub.removeObserver(handle(j))
 
     def verify_created():
         for key in created:
-            sim.check("delivered-to-all-in-order", got[key] == expect[key], key[0],
-                      lambda: "%r: received by %r, expected %r (registration order)" % (key, got[key], expect[key]))
+            skip = unjudged[key]
+            if skip:
+                sim.probe("verdict_beside_unjudged_observer")
+            g = [i for i in got[key] if i not in skip]
+            e = [i for i in expect[key] if i not in skip]
+            sim.check("delivered-to-all-in-order", g == e, wit(key),
+                      lambda: "%r: received by %r, expected %r (registration order; no verdict about %r, added/removed during the dispatch)" % (
+                          key, g, e, sorted(skip)))
         del created[:]
 
     for _ in range(nops):
@@ -240,22 +350,27 @@ def run(sim):
         if op == "emit":
             st["emits"] += 1
             st["nested"] = 0
+            st["unsafe"] = False
             emit()
             verify_created()
         elif op == "add":
             i = sim.draw_int(0, nobs - 1, "which")
             sim.event("add", i, "present" if i in reg else "new")
+            if i in reg and shapes[i] == "method":
+                sim.probe("equal_bound_method_registered_again")
             if i not in reg:
                 reg.append(i)
             with sim.guard("add-raised"):
-                pub.addObserver(observers[i])
+                pub.addObserver(handle(i))
         elif op == "remove":
             if reg:
                 i = sim.draw_choice(reg, "which")
                 sim.event("remove", i)
                 reg.remove(i)
+                if shapes[i] == "method":
+                    sim.probe("removed_by_equal_bound_method")
                 with sim.guard("remove-raised"):
-                    pub.removeObserver(observers[i])
+                    pub.removeObserver(handle(i))
         elif op == "setlevel":
             if sim.draw_bool(0.15, "default_ns"):
                 ns = ""
@@ -346,4 +461,20 @@ MUTANTS = [
     "_filter.py LogLevelFilterPredicate: level table is a class attribute shared by all predicates: CAUGHT (level-for-namespace / filter-decision, ~120 runs)",
     "_filter.py LogLevelFilterPredicate.__init__: level table shared through a module global: CAUGHT",
     "_filter.py LogLevelFilterPredicate.__init__: default level stored on the class (last constructed filter's default wins after clearLogLevels): CAUGHT",
+    "round 6 (observers named by equal bound methods; observers added / removed from inside a delivery):",
+    "_observer.py addObserver: membership by identity instead of equality (an equal bound method registered twice): CAUGHT (delivered-once:e, "
+    "delivered-to-registered:e after one removal, ~200 runs)",
+    "_observer.py removeObserver: removes by identity (a bound method obtained again is never found): CAUGHT (delivered-to-registered:e)",
+    "_observer.py addObserver: no membership test at all: CAUGHT (delivered-once:e)",
+    "GENUINE DEFECT of the tree as first examined, REPAIRED in /repo 5128ccf (precondition generated with UNSAFE_REMOVE_P = 0.5; 0 only for dev-time comparison): "
+    "LogPublisher.__call__ walked the live list "
+    "`for observer in self._observers:` (_observer.py line 76); removeObserver() from inside a delivery of the handling observer itself or of an "
+    "earlier one shifted the list under the loop and the NEXT observer - untouched, registered before, during and after - never received the event: "
+    "observers a, b, c with a removing itself -> a, c; b removing a -> a, b (c skipped).  Signature "
+    "C57:delivered-to-all-in-order:e@removed-at-or-before-cursor (minimal: two observers, the first removes itself, one emit).  Repair: "
+    "`for observer in list(self._observers):` - with it the check is clean at UNSAFE_REMOVE_P = 0.5 (32000 runs).",
+    "NO VERDICT (outside the statement): LimitedHistoryLogObserver.replayTo() to a target that feeds an event back into the same history raises "
+    "RuntimeError('deque mutated during iteration') after the first event (unchanged tree).  'the last N events' is not defined for a history that "
+    "changes under its own replay (snapshot and live readings disagree) and the tree's own caller (LogBeginner.beginLoggingTo) detaches the buffer "
+    "before replaying into the publisher; the family is not generated.",
 ]
